@@ -37,7 +37,15 @@ def shape(t):
     if isinstance(t, (A.OpaqueRef, A.OpaqueBox)):
         return ("ptr",)
     if isinstance(t, A.Slice):
-        return ("struct", (("ptr",), ("int", "size", False)))
+        # the element type does not change the C layout of the record, but a typed pointer in the mirror (Dart) decides how the
+        # elements are read and written: it is compared wherever the declaration names one
+        if t.enc in ("str", "DiplomatStr"):
+            el = ("int", 8, False)
+        elif t.enc == "DiplomatStr16":
+            el = ("int", 16, False)
+        else:
+            el = shape(t.elem)
+        return ("struct", (("ptr", el), ("int", "size", False)))
     if isinstance(t, (A.Opt, A.NullableRet)):
         arms = () if isinstance(t.inner, A.Unit) else (shape(t.inner),)
         return ("struct", (("union", arms), ("bool",))) if arms else ("struct", (("bool",),))
@@ -113,7 +121,12 @@ class DartModel:
             raise Undecided("dart: type recursion too deep at " + t)
         if t in DART_SCALARS:
             return DART_SCALARS[t]
-        if t.startswith("ffi.Pointer<"):
+        if t.startswith("ffi.Pointer<") and t.endswith(">"):
+            inner = t[len("ffi.Pointer<"):-1].strip()
+            if inner in DART_SCALARS and inner != "ffi.Void":
+                return ("ptr", DART_SCALARS[inner])
+            if inner in self.classes:
+                return ("ptr", self.ty(inner, depth + 1))
             return ("ptr",)
         if t in self.classes:
             kind, fields = self.classes[t]
@@ -259,7 +272,13 @@ def compatible(want, got, backend, path="", out=None):
         elif backend == "dart" and got[2] != want[2]:
             out.append("%s: signedness: C ABI %s, declared %s" % (path, want, got[:3]))
         return out
-    if want[0] in ("float", "ptr", "void"):
+    if want[0] == "ptr":
+        if got[0] != "ptr":
+            out.append("%s: C ABI %s, declared %s" % (path, want[:1], got[:3]))
+        elif len(want) > 1 and len(got) > 1 and compatible(want[1], got[1], backend, path + ".*"):
+            out.append("%s: pointee: the elements are %s, the declared pointer is to %s" % (path, want[1][:3], got[1][:3]))
+        return out
+    if want[0] in ("float", "void"):
         if got[:2] != want[:2]:
             out.append("%s: C ABI %s, declared %s" % (path, want, got[:3]))
         return out
